@@ -34,6 +34,7 @@ fn main() {
         "c13" => props::c13::run(&cfg),
         "c14" => props::c14::run(&cfg),
         "c15" => props::c15::run(&cfg),
+        "c11" => props::c11::run(&cfg),
         "c16" => props::c16::run(&cfg),
         "c01" => props::chain::run(&cfg, props::chain::Which::C01),
         "c03" => props::chain::run(&cfg, props::chain::Which::C03),
